@@ -23,6 +23,7 @@ def check(program: Program, run: Run) -> None:
         "hash-seed independence. Nothing is executed.")
     run.rule("R1 render purity: no REBIND/MUTATE on self/param/global in the observer closure (allow: Parameterizer.create_param:self.values)")
     run.rule("R2 order-stable output: no iteration of set-kinded values (for/comprehension/join/list()/unpack) in the closure; no id()/random/time/env; hash() only in __hash__")
+    run.rule("R4 no one-shot iterator (generator call, generator expression, map/filter/zip...) is stored in object state: iterating it while rendering is a write")
     run.rule("R3 fresh accumulator, frozen context: Parameterizer() constructed inside get_parameterized_sql; no mutable defaults; SqlContext frozen dataclass; copy() constructs a new SqlContext")
     run.assumptions += ["class-hierarchy call resolution (no monkey-patching)",
                         "str()/float formatting of CPython is deterministic across processes"]
@@ -91,6 +92,107 @@ def check(program: Program, run: Run) -> None:
 
     # R3
     _r3(program, run)
+    # R4
+    _r4(program, run)
+
+
+LAZY_BUILTINS = {"map", "filter", "zip", "iter", "reversed", "enumerate"}
+LAZY_EXTERN = {"chain", "islice", "starmap", "takewhile", "dropwhile", "groupby", "accumulate", "product", "permutations", "combinations", "zip_longest"}
+
+
+def _r4(program: Program, run: Run) -> None:
+    """R4: iterating is an effect on a one-shot iterator.  A generator object (call of a generator function, generator
+    expression, map/filter/zip/...) stored in an object's state is drained by the first render that walks it; every
+    later render -- and every sibling copy sharing it -- sees it empty.  State must hold re-iterable containers."""
+    import ast
+    genfuncs = {}
+    for f in program.all_functions():
+        own = [n for n in ast.walk(f.node) if isinstance(n, (ast.Yield, ast.YieldFrom))]
+        # yields of nested defs belong to those
+        nested = {id(y) for d in ast.walk(f.node) if isinstance(d, (ast.FunctionDef, ast.Lambda)) and d is not f.node for y in ast.walk(d) if isinstance(y, (ast.Yield, ast.YieldFrom))}
+        if any(id(y) not in nested for y in own):
+            genfuncs.setdefault(f.name, []).append(f)
+    n_gen = sum(len(v) for v in genfuncs.values())
+    run.analysed["generator_functions"] = n_gen
+    if n_gen < 8:
+        raise AnalysisError(f"instance count below floor: generator functions recognised {n_gen}")
+    nstores = 0
+    for f in program.all_functions():
+        if f.cls is None or not f.params:
+            continue
+        selfn = f.params[0]
+        local_lazy: dict = {}
+
+        def lazy(e):
+            if isinstance(e, ast.GeneratorExp):
+                return "a generator expression"
+            if isinstance(e, ast.Call):
+                fn = e.func
+                nm = fn.id if isinstance(fn, ast.Name) else (fn.attr if isinstance(fn, ast.Attribute) else None)
+                if isinstance(fn, ast.Name) and nm in LAZY_BUILTINS | LAZY_EXTERN:
+                    return f"{nm}(...)"
+                if isinstance(fn, ast.Attribute) and nm in LAZY_EXTERN:
+                    return f"{nm}(...)"
+                if nm in genfuncs:
+                    cands = genfuncs[nm]
+                    # a method call on self/cls/an object: any generator definition of that name in the package
+                    if isinstance(fn, ast.Name) and not any(g.cls is None for g in cands):
+                        return None
+                    return f"a call of the generator function {cands[0].qualname}"
+                return None
+            if isinstance(e, (ast.List, ast.Tuple, ast.Set)):
+                for x in e.elts:
+                    if isinstance(x, ast.Starred):
+                        continue
+                    r = lazy(x)
+                    if r:
+                        return r
+                return None
+            if isinstance(e, ast.BinOp) and isinstance(e.op, ast.Add):
+                return lazy(e.left) or lazy(e.right)
+            if isinstance(e, ast.IfExp):
+                return lazy(e.body) or lazy(e.orelse)
+            if isinstance(e, ast.Name):
+                return local_lazy.get(e.id)
+            return None
+
+        def self_attr(t):
+            while isinstance(t, ast.Subscript):
+                t = t.value
+            if isinstance(t, ast.Attribute) and isinstance(t.value, ast.Name) and t.value.id == selfn:
+                return t.attr
+            return None
+        for n in ast.walk(f.node):
+            if isinstance(n, ast.Assign) and len(n.targets) == 1 and isinstance(n.targets[0], ast.Name):
+                r = lazy(n.value)
+                if r:
+                    local_lazy[n.targets[0].id] = r
+        for n in ast.walk(f.node):
+            stores = []
+            if isinstance(n, ast.Assign):
+                stores = [(self_attr(t), n.value) for t in n.targets]
+            elif isinstance(n, ast.AnnAssign) and n.value is not None:
+                stores = [(self_attr(n.target), n.value)]
+            elif isinstance(n, ast.AugAssign):
+                # `self.x += gen` extends (consumes); `self.x += [gen]` stores
+                stores = [(self_attr(n.target), n.value)] if isinstance(n.value, (ast.List, ast.Tuple)) else []
+            elif isinstance(n, ast.Call) and isinstance(n.func, ast.Attribute) and n.func.attr in ("append", "add", "insert", "setdefault", "appendleft"):
+                a = self_attr(n.func.value)
+                stores = [(a, x) for x in n.args]
+            for a, v in stores:
+                if a is None:
+                    continue
+                nstores += 1
+                r = lazy(v)
+                if r:
+                    run.ob("C02/R4 object state holds re-iterable containers only", f"{f.qualname}:{a}", False, detail=r, where=f.loc(n))
+                    run.finding(f"C02/one-shot-iterator-in-state:{f.qualname}:{a}",
+                                f"{f.qualname} stores {r} in self.{a}: the first render that iterates it drains it, so a second render (or the render of a sibling copy sharing it) emits an empty clause",
+                                where=f.loc(n), rule="R4", excerpt=f.module.excerpt(n.lineno, 1))
+    run.ob("C02/R4 object state holds re-iterable containers only", "package", True, detail=f"{nstores} stores to self state scanned; {n_gen} generator functions known", nontrivial=False)
+    run.analysed["state_stores_scanned"] = nstores
+    if nstores < 300:
+        raise AnalysisError(f"instance count below floor: state stores scanned {nstores}")
 
 
 def _r3(program: Program, run: Run) -> None:
